@@ -544,6 +544,7 @@ func report(prop string, specs []*harnessSpec, items []item, results []*itemResu
 	knownPrinted := map[string]bool{}
 	replayed := 0
 	distinct := map[string]bool{}
+	confirmedKeys := map[string]bool{}
 	for i, r := range results {
 		queries += r.Queries
 		solverMs += r.SolverMs
@@ -571,6 +572,9 @@ func report(prop string, specs []*harnessSpec, items []item, results []*itemResu
 		}
 		for vi, v := range r.Violations {
 			key := r.Func + ":" + v.ID
+			if confirmedKeys[key] || replayed >= 8 {
+				continue // same obligation already reproduced (or replay budget used): not replayed again
+			}
 			rp := ""
 			confirmed := false
 			detail := ""
@@ -601,6 +605,7 @@ func report(prop string, specs []*harnessSpec, items []item, results []*itemResu
 				continue
 			}
 			violations++
+			confirmedKeys[key] = true
 			fmt.Printf("VIOLATION property=%s replay=%s\n", prop, rp)
 			fmt.Printf("  harness=%s obligation=%s detail=%s pos=%s model=%v\n", r.Label, v.ID, detail, v.Pos, v.Model)
 			exit = 1
@@ -741,28 +746,33 @@ func TestVerifReplay(t *testing.T) {
 	os.WriteFile(ovPath, ob, 0o644)
 	cmdline := fmt.Sprintf("cd %s && VERIF_REPLAY=%s go test -tags verif -vet=off -count=1 -overlay %s -run '^TestVerifReplay$' ./%s", *flagRepo, modelPath, ovPath, it.H.RelDir)
 	os.WriteFile(filepath.Join(dir, base+".sh"), []byte("#!/bin/sh\nexport GOFLAGS=-mod=mod GOPROXY=off GOSUMDB=off GOTOOLCHAIN=local\n"+cmdline+"\n"), 0o755)
-	cmd := exec.Command("timeout", "300", "go", "test", "-tags", "verif", "-vet=off", "-count=1", "-overlay", ovPath, "-run", "^TestVerifReplay$", "./"+it.H.RelDir)
-	cmd.Dir = *flagRepo
-	cmd.Env = append(os.Environ(), "VERIF_REPLAY="+modelPath, "GOFLAGS=-mod=mod", "GOPROXY=off", "GOSUMDB=off", "GOTOOLCHAIN=local")
-	out, err := cmd.CombinedOutput()
-	os.WriteFile(filepath.Join(dir, base+".log"), out, 0o644)
-	so := string(out)
 	path = filepath.Join(dir, base+".sh")
-	switch {
-	case strings.Contains(so, "VERIF-ASSUME-FAILED"):
-		return path, false, "native run left the modelled path (assumption failed)"
-	case strings.Contains(so, "VERIF-ASSERT-FAILED"):
-		m := regexp.MustCompile(`VERIF-ASSERT-FAILED (\S+)`).FindStringSubmatch(so)
-		return path, true, "native assertion failed: " + m[1]
-	case strings.Contains(so, "panic:") && err != nil:
-		m := regexp.MustCompile(`panic: ([^\n]*)`).FindStringSubmatch(so)
-		if v.ID == "panic" || true {
+	for variant := 0; variant < 2; variant++ {
+		cmd := exec.Command("timeout", "300", "go", "test", "-tags", "verif", "-vet=off", "-count=1", "-overlay", ovPath, "-run", "^TestVerifReplay$", "./"+it.H.RelDir)
+		cmd.Dir = *flagRepo
+		cmd.Env = append(os.Environ(), "VERIF_REPLAY="+modelPath, fmt.Sprintf("VERIF_VARIANT=%d", variant), "GOFLAGS=-mod=mod", "GOPROXY=off", "GOSUMDB=off", "GOTOOLCHAIN=local")
+		out, err := cmd.CombinedOutput()
+		os.WriteFile(filepath.Join(dir, fmt.Sprintf("%s.v%d.log", base, variant)), out, 0o644)
+		so := string(out)
+		switch {
+		case strings.Contains(so, "VERIF-ASSUME-FAILED"):
+			detail = "native run left the modelled path (assumption failed)"
+		case strings.Contains(so, "VERIF-ASSERT-FAILED"):
+			m := regexp.MustCompile(`VERIF-ASSERT-FAILED (\S+)`).FindStringSubmatch(so)
+			if variant > 0 {
+				os.WriteFile(path, []byte("#!/bin/sh\nexport GOFLAGS=-mod=mod GOPROXY=off GOSUMDB=off GOTOOLCHAIN=local VERIF_VARIANT=1\n"+cmdline+"\n"), 0o755)
+			}
+			return path, true, "native assertion failed: " + m[1]
+		case strings.Contains(so, "panic:") && err != nil:
+			m := regexp.MustCompile(`panic: ([^\n]*)`).FindStringSubmatch(so)
 			return path, true, "native panic: " + m[1]
+		case err == nil:
+			detail = "native run passed"
+		default:
+			return path, false, "native run failed to build or run: " + firstLine(so)
 		}
-	case err == nil:
-		return path, false, "native run passed"
 	}
-	return path, false, "native run failed to build or run: " + firstLine(so)
+	return path, false, detail
 }
 
 func firstLine(s string) string {
